@@ -723,6 +723,9 @@ class Interp:
                 st.site("none-arith", node)
             return Opaque(f"binop on {type(l).__name__},{type(r).__name__}")
         a, b = l.f, r.f
+        _rd = [x for x in (poly._single_atom(a), poly._single_atom(b)) if x is not None and x[0] == "rd"]
+        if _rd:
+            st.site("rd-arith", node, atoms=_rd)
         if op is ast.Add:
             r = a + b
             self._track(st, op, a, b, r)
